@@ -17,6 +17,7 @@ REGISTRY = [
     ("gen-mainwiring", "MainWiring.v", (C.REPO,)),
     ("gen-conftags", "ConfTags.v", ()),
     ("gen-nas", "NasDesc.v", ("coq",)),
+    ("gen-nasacc", "NasAccessors.v", (C.REPO,)),
     ("gen-builders", "Builders.v", (C.REPO,)),
     ("gen-snow3g", "Snow3gTables.v", (C.REPO,)),
 ]   # (sub, outfile, args)
